@@ -15,7 +15,7 @@ RULE = ("Generated register layouts (widths 0..5 bus words, r/w/rw, implicit / n
         "the reference model (r_stb of every register; bus.r_data). Non-trivial = >= 2 registers and "
         "a multi-chunk readable register read completely. Distinct = canonical JSON.")
 BUDGET = {"quick": (16, 500), "thorough": (16, 8000)}
-ESSENTIAL = ["late_registers", "beyond_13_address_bits", "high_base_address", "unaligned", "padded", "multi_chunk", "zero_width", "shared_chunk", "stim:conf", "stim:arb",
+ESSENTIAL = ["beyond_13_address_bits", "high_base_address", "unaligned", "padded", "multi_chunk", "zero_width", "shared_chunk", "stim:conf", "stim:arb",
              "aborted", "pipelined", "simultaneous_rw", "unmapped_access", "finite_overlaps_ok"]
 ASSUMPTIONS = [
     "data returned by non-conforming sequences is unspecified and not compared (only strobe exactness and zero-when-idle)",
